@@ -60,10 +60,10 @@ theorem step_longest_first (modes : List ScanMode) (st : ScanSt) (w : List Nat) 
       · intro u hu k hk; exact hpost u hu k (by rw [ScanTerm.matchLen_eq_spec]; exact hk)
 
 /-- "the longest match among the terminals": a terminal's regex matches a string exactly when the
-    string belongs to the regular language it denotes (`Matches`: the textbook inductive definition);
+    string belongs to the regular language it denotes (`ReMatches`: the textbook inductive definition);
     the executable matcher used by `tokenizeSpec` (Brzozowski derivatives with normalising
     constructors) decides this. -/
-theorem matchesRe_iff (r : Re) (w : List Nat) : matchesRe r w = true ↔ Matches r w :=
+theorem matchesRe_iff (r : Re) (w : List Nat) : matchesRe r w = true ↔ ReMatches r w :=
   ParolModel.matchesRe_iff r w
 
 /-- "the longest match … honouring positive/negative lookahead": the match length of a terminal is
@@ -157,14 +157,14 @@ theorem error_token_last_iff (c : ModeCfg) (ts : List (List Nat)) (nNames : Nat)
     read-ahead because they happen inside the scanner at match time (`tokenizeFuel`). -/
 theorem stream_indep_of_k (ms : List LTok) (len k : Nat) (peek : Bool) (hms : ∀ t ∈ ms, t.ty ≠ eoiTy) :
     ∃ fuel, deliver peek fuel (TStream.new ms len k) = some (deliveredRef ms len) :=
-  stream_delivers ms len k peek hms
+  TokStream.stream_delivers ms len k peek hms
 
 /-- Two parsers with different lookahead sizes and different access schedules see the same tokens. -/
 theorem stream_indep_of_consumption (ms : List LTok) (len k k' : Nat) (peek peek' : Bool)
     (hms : ∀ t ∈ ms, t.ty ≠ eoiTy) :
     ∃ f f', deliver peek f (TStream.new ms len k) = deliver peek' f' (TStream.new ms len k') ∧
       (deliver peek f (TStream.new ms len k)).isSome :=
-  stream_indep ms len k k' peek peek' hms
+  TokStream.stream_indep ms len k k' peek peek' hms
 
 /-- The matches of the spec tokenizer never have the EOI type as long as no terminal has it, so the
     hypothesis of `stream_indep_of_k` is met by every scanner description parol generates (user
